@@ -290,7 +290,7 @@ def scenario(chk, pr, xvc, idx, rng, forced=None):
         root_gi = sb.read(GI).decode()
         for d, c in gis.items():
             sb.write((d + '/' if d else '') + GI, (root_gi if d == '' else '') + c)
-        sb.git('add', '--', '*' + GI, GI); sb.git('commit', '-q', '-m', 'user gitignores')
+        sb.git('add', '-f', '--', '*' + GI, GI); sb.git('commit', '-q', '-m', 'user gitignores')     # -f: also inside ignored directories
         log.append({'files': files, 'gitignores': gis})
         tracked = set()
         ncmd = len(cmds) if cmds else rng.randint(2, 5)
